@@ -508,9 +508,18 @@ def run_loop(case):
     unit = T / 8.0
     ha = _loop_addr()
     store = storing.Store(stamp=0.0)
-    server = LoopServer(ha)
+    wild = bool(case.get("wild")) and case["kind"] != "patron"
+    if wild:
+        # the client is configured with the wildcard host ('' -> 0.0.0.0), which the kernel connects to this host's
+        # loopback address: the configured address and the live socket's peer address differ
+        server = LoopServer(("127.0.0.1", ha[1]))
+        ha = ("", ha[1])
+    else:
+        server = LoopServer(ha)
     steps, tail0, upfrom = _plan_steps(case)
     classes = {"engine:loop", "kind:" + case["kind"], "reconn:%s" % case["reconn"], "timeout:%s" % T}
+    if wild:
+        classes.add("wildcard-host")
     subj = None
     socks_seen = 0
     created = None
@@ -798,6 +807,7 @@ def loop_cases():
         "open": st.booleans(),
         "start": st.sampled_from(["up", "down"]),
         "steps": st.lists(st.tuples(DT, EV_LOOP).map(list), min_size=0, max_size=16),
+        "wild": st.sampled_from([False, False, True]),
     })
 
 
